@@ -3,7 +3,7 @@ from ..run import Result
 from . import dtlib
 from .common import run_items
 from .grids import stable_hash
-from .c03 import ASSUME, sizes
+from .c03 import ASSUME, sizes, user_items
 
 
 def configs(ctx):
@@ -19,6 +19,7 @@ def configs(ctx):
             long_f = q in ('qshift_c', 'qshift_d') or b == 'near_sym_b'
             J = 2 if (long_f or ctx.quick) else 3
             items.append((b, q, H, W, J, 1, 2, 2, -1, 0, 'none', False))
+    items += user_items(ctx, inverse=True)
     # absent levels: every mask for J <= 3, None and 0-dim, lowpass absent
     for (H, W) in ((8, 8), (16, 16), (10, 12), (6, 14), (7, 9), (20, 12)):
         for J in (1, 2, 3):
